@@ -12,6 +12,8 @@
 -/
 import ControlModel.Gen.EnvBodies
 import ControlModel.Gen.EnvStamps
+import ControlModel.Gen.C08Facts
+import ControlModel.Proofs.EnvOnce
 import ControlModel.Proofs.EnvRun
 import ControlModel.Proofs.EnvRunOnce
 
@@ -376,3 +378,188 @@ example :
     let env := finalEnv hooks 0 {} [.try_ .DEPLOY true false, .try_ .CONFIGURE true false, .try_ .START_ACTIVITY true false, .try_ .STOP_ACTIVITY true false]
     env.vars = { rnVar := none, lastRn := some 1, sosor := .val 1, eosor := .val 2, soeor := .val 3, eoeor := .val 4 } ∧ env.rn = 0 ∧ env.st = .CONFIGURED := by
   decide
+
+/-! ### which pass a hook runs in, what it sees there, how often it runs (since seed C10-6)
+
+  before_<event>, leave_<state>, enter_<state>, after_<event> handle their hooks in two passes with the
+  bookkeeping of the run bracket between them. That the hooks of a NON-NEGATIVE weight see what the second pass
+  sees — whatever the await expressions of the calls of the moment say, e.g. a call triggered at
+  before_START_ACTIVITY-10 that is awaited at before_START_ACTIVITY+10, where other hooks are triggered —
+  rests on the split: a pass visits, starts and collects at weights of its own sign only. -/
+
+/-- Each pass visits only weights of its own sign, and everything it begins is a hook triggered at this moment
+    with a weight of that sign — for all environments (pending calls included), hook sets and moments. -/
+theorem C10_pass_signs (env : Env) (hooks : List Hook) (m : Moment) :
+    (∀ w ∈ weightsFor env hooks m negW, w < 0) ∧ (∀ w ∈ weightsFor env hooks m posW, w ≥ 0) ∧
+    (∀ s ∈ (handleHooks env hooks m negW).2.1, ∀ i ∈ s.begun, ∃ g ∈ hooks, g.id = i.hook ∧ g.trig = m ∧ g.tw < 0) ∧
+    (∀ s ∈ (handleHooks env hooks m posW).2.1, ∀ i ∈ s.begun, ∃ g ∈ hooks, g.id = i.hook ∧ g.trig = m ∧ g.tw ≥ 0) := by
+  have hmem : ∀ (p : Int → Bool) (s : Step), s ∈ (handleHooks env hooks m p).2.1 → ∀ i ∈ s.begun,
+      i.hook ∈ begunIds (handleHooks env hooks m p).2.1 := by
+    intro p s hs i hi
+    unfold begunIds
+    exact List.mem_map.mpr ⟨i, List.mem_flatMap.mpr ⟨s, hs, hi⟩, rfl⟩
+  refine ⟨fun w hw => ?_, fun w hw => ?_, fun s hs i hi => ?_, fun s hs i hi => ?_⟩
+  · have := (weightsFor_ascending env hooks m negW).2 w hw
+    simpa [negW] using this
+  · have := (weightsFor_ascending env hooks m posW).2 w hw
+    simpa [posW] using this
+  · obtain ⟨g, hg, hid, ht, hp⟩ := handleHooks_begun_hook env hooks m negW i.hook (hmem negW s hs i hi)
+    exact ⟨g, hg, hid, ht, by simpa [negW] using hp⟩
+  · obtain ⟨g, hg, hid, ht, hp⟩ := handleHooks_begun_hook env hooks m posW i.hook (hmem posW s hs i hi)
+    exact ⟨g, hg, hid, ht, by simpa [posW] using hp⟩
+
+/-- The split is the code's: handleHooks takes the weights of a pass from ONE set (`allWeights :=
+    allWeightsSet.GetWeights()`), restricts them by the predicate it was handed and loops over exactly the
+    restricted list, and the three entries hand it `true` / `w < 0` / `w >= 0` and do nothing else (go/ast facts of
+    harness/props/c08/facts.go, re-read on every run) — which is `weightsFor … p = (sortDedup …).filter p`. -/
+theorem C10_pass_split_is_code :
+    Gen.C08Facts.weightsFromSet = true ∧ Gen.C08Facts.loopOverFiltered = true ∧
+    Gen.C08Facts.wrappers.map (fun w => (w.1, w.2.1)) =
+      [("handleAllHooks", "true"), ("handleHooksWithNegativeWeights", "w < 0"), ("handleHooksWithPositiveWeights", "w >= 0")] ∧
+    (∀ (env : Env) (hooks : List Hook) (m : Moment) (p : Int → Bool), ∀ w ∈ weightsFor env hooks m p, p w = true) :=
+  ⟨by rfl, by rfl, by rfl, fun env hooks m p w hw => (weightsFor_ascending env hooks m p).2 w hw⟩
+
+/-- **A non-negative before_START_ACTIVITY hook sees the run number and the start stamp, and runs once.** With
+    pairwise different hook ids, whatever else is triggered or awaited at the moment (calls that cross from the
+    negative into the other pass included): every execution of a hook triggered at before_START_ACTIVITY with
+    weight ≥ 0 that a START's before_event begins is handed the NEW run number and start time, the three later
+    stamps empty; it is begun at most once, and exactly once when no critical failure stops the second pass. -/
+theorem C10_nonneg_before_start_sees_run (env : Env) (hooks : List Hook) (h : Hook)
+    (hmem : h ∈ hooks) (hU : (hooks.map (·.id)).Nodup) (ht : h.trig = .before .START_ACTIVITY) (hw : h.tw ≥ 0)
+    (hneg : (handleHooks env hooks (.before .START_ACTIVITY) negW).2.2 = 0) :
+    (∀ s ∈ (beforeEvent env hooks .START_ACTIVITY false).2.1, ∀ i ∈ s.begun, i.hook = h.id →
+        i.snap.rnVar = some (env.counter + 1) ∧ i.snap.sosor = .val (env.clock + 1) ∧
+        i.snap.eosor = .empty ∧ i.snap.soeor = .empty ∧ i.snap.eoeor = .empty) ∧
+    begunCount h.id (beforeEvent env hooks .START_ACTIVITY false).2.1 ≤ 1 ∧
+    ((beforeEvent env hooks .START_ACTIVITY false).2.2 = none →
+      begunCount h.id (beforeEvent env hooks .START_ACTIVITY false).2.1 = 1) := by
+  have hsplit := C10_set_between_neg_and_pos env hooks hneg
+  simp only at hsplit
+  obtain ⟨hsteps, hbk, _, hpos⟩ := hsplit
+  have hbkno := bkBefore_noBegun (handleHooks env hooks (.before .START_ACTIVITY) negW).1 .START_ACTIVITY false
+  have h2 := twoPass_begunCount env (bkBefore (handleHooks env hooks (.before .START_ACTIVITY) negW).1 .START_ACTIVITY false).1
+    hooks (.before .START_ACTIVITY) h hmem hU
+  have hcount : begunCount h.id (beforeEvent env hooks .START_ACTIVITY false).2.1 =
+      begunCount h.id (handleHooks env hooks (.before .START_ACTIVITY) negW).2.1 +
+      begunCount h.id (handleHooks (bkBefore (handleHooks env hooks (.before .START_ACTIVITY) negW).1 .START_ACTIVITY false).1
+        hooks (.before .START_ACTIVITY) posW).2.1 := by
+    rw [hsteps]
+    simp only [begunCount_append, begunCount_mark, begunCount_noBegun h.id _ hbkno]
+    omega
+  refine ⟨?_, ?_, ?_⟩
+  · intro s hs i hi hid
+    rw [hsteps] at hs
+    simp only [List.mem_append, List.mem_singleton] at hs
+    rcases hs with (((rfl | hs) | hs) | hs) | rfl
+    · cases hi
+    · have := (begun_in_pass env hooks _ negW h hmem hU s hs i hi hid).2
+      simp only [negW, decide_eq_true_eq] at this
+      omega
+    · rw [hbkno s hs] at hi; cases hi
+    · exact hpos s hs i hi
+    · cases hi
+  · rw [hcount]; have := h2.1; rw [if_pos ht] at this; exact this
+  · intro hnone
+    rw [hcount]
+    have hr2 : (handleHooks (bkBefore (handleHooks env hooks (.before .START_ACTIVITY) negW).1 .START_ACTIVITY false).1
+        hooks (.before .START_ACTIVITY) posW).2.2 = 0 := by
+      unfold beforeEvent at hnone
+      simp only [hneg, gt_iff_lt, Nat.lt_irrefl, if_false, (bkBefore_START _ hooks).1, Bool.false_eq_true] at hnone
+      split at hnone
+      · cases hnone
+      · omega
+    have := h2.2 hneg hr2
+    rw [if_pos ht] at this
+    exact this
+
+/-- **The non-negative hooks of the other moments of the run bracket see the stamp their moment writes.** With
+    pairwise different hook ids: a hook triggered at before_STOP_ACTIVITY / before_GO_ERROR with weight ≥ 0 is
+    begun only with the end time set (if the run has one to set: the variable is present); at
+    after_START_ACTIVITY with the start-completion time set; at after_STOP_ACTIVITY / after_GO_ERROR with the
+    end-completion time set. -/
+theorem C10_nonneg_hooks_see_stamps (env : Env) (hooks : List Hook) (h : Hook)
+    (hmem : h ∈ hooks) (hU : (hooks.map (·.id)).Nodup) (hw : h.tw ≥ 0) :
+    (∀ e, (e = .STOP_ACTIVITY ∨ e = .GO_ERROR) → h.trig = .before e → env.vars.soeor ≠ .absent → ∀ r,
+      ∀ s ∈ (beforeEvent env hooks e r).2.1, ∀ i ∈ s.begun, i.hook = h.id → i.snap.soeor.isVal = true) ∧
+    (h.trig = .after .START_ACTIVITY → ∀ errs,
+      ∀ s ∈ (afterEvent env hooks .START_ACTIVITY errs).2.1, ∀ i ∈ s.begun, i.hook = h.id → i.snap.eosor.isVal = true) ∧
+    (∀ e, (e = .STOP_ACTIVITY ∨ e = .GO_ERROR) → h.trig = .after e → env.vars.eoeor ≠ .absent → ∀ errs,
+      ∀ s ∈ (afterEvent env hooks e errs).2.1, ∀ i ∈ s.begun, i.hook = h.id → i.snap.eoeor.isVal = true) := by
+  have notNeg : ∀ (env' : Env) (m : Moment) (s : Step), s ∈ (handleHooks env' hooks m negW).2.1 → ∀ i ∈ s.begun, i.hook = h.id → False := by
+    intro env' m s hs i hi hid
+    have := (begun_in_pass env' hooks m negW h hmem hU s hs i hi hid).2
+    simp only [negW, decide_eq_true_eq] at this
+    omega
+  refine ⟨?_, ?_, ?_⟩
+  · intro e he _ hp r s hs i hi hid
+    have hset : (bkBefore (handleHooks env hooks (.before e) negW).1 e r).1.vars.soeor.isVal = true := by
+      have hp' : (handleHooks env hooks (.before e) negW).1.vars.soeor ≠ .absent := by rw [handleHooks_vars]; exact hp
+      rcases he with rfl | rfl <;> (unfold bkBefore; simp only []; exact setSoeor_sets _ _ _ hp')
+    have hbkno := bkBefore_noBegun (handleHooks env hooks (.before e) negW).1 e r
+    unfold beforeEvent at hs
+    simp only at hs
+    split at hs
+    · simp only [List.mem_append, List.mem_singleton] at hs
+      rcases hs with (rfl | hs) | rfl
+      · cases hi
+      · exact (notNeg _ _ s hs i hi hid).elim
+      · cases hi
+    · split at hs
+      · simp only [List.mem_append, List.mem_singleton] at hs
+        rcases hs with rfl | hs
+        · cases hi
+        · exact (notNeg _ _ s hs i hi hid).elim
+      · simp only [List.mem_append, List.mem_singleton] at hs
+        rcases hs with (((rfl | hs) | hs) | hs) | rfl
+        · cases hi
+        · exact (notNeg _ _ s hs i hi hid).elim
+        · rw [hbkno s hs] at hi; cases hi
+        · rw [handleHooks_begun_snap _ hooks _ posW s hs i hi]; exact hset
+        · cases hi
+  · intro _ errs s hs i hi hid
+    unfold afterEvent at hs
+    simp only at hs
+    generalize hbk : bkAfter (handleHooks env hooks (.after .START_ACTIVITY) negW).1 .START_ACTIVITY _ = bk at hs
+    have hset : bk.1.vars.eosor.isVal = true := by rw [← hbk]; simp [bkAfter, tick, TV.isVal]
+    have hbkno : NoBegun bk.2 := by rw [← hbk]; exact bkAfter_noBegun _ _ _
+    have hfin := finAfter_noBegun (handleHooks bk.1 hooks (.after .START_ACTIVITY) posW).1 .START_ACTIVITY
+    simp only [List.mem_append, List.mem_singleton] at hs
+    rcases hs with ((((rfl | hs) | hs) | hs) | hs) | rfl
+    · cases hi
+    · exact (notNeg _ _ s hs i hi hid).elim
+    · rw [hbkno s hs] at hi; cases hi
+    · rw [handleHooks_begun_snap _ hooks _ posW s hs i hi]; exact hset
+    · rw [hfin s hs] at hi; cases hi
+    · cases hi
+  · intro e he _ hp errs s hs i hi hid
+    unfold afterEvent at hs
+    simp only at hs
+    generalize hbk : bkAfter (handleHooks env hooks (.after e) negW).1 e _ = bk at hs
+    have hset : bk.1.vars.eoeor.isVal = true := by
+      rw [← hbk]
+      have hp' : (handleHooks env hooks (.after e) negW).1.vars.eoeor ≠ .absent := by rw [handleHooks_vars]; exact hp
+      rcases he with rfl | rfl <;> (unfold bkAfter; simp only []; exact setEoeor_sets _ _ _ hp')
+    have hbkno : NoBegun bk.2 := by rw [← hbk]; exact bkAfter_noBegun _ _ _
+    have hfin := finAfter_noBegun (handleHooks bk.1 hooks (.after e) posW).1 e
+    simp only [List.mem_append, List.mem_singleton] at hs
+    rcases hs with ((((rfl | hs) | hs) | hs) | hs) | rfl
+    · cases hi
+    · exact (notNeg _ _ s hs i hi hid).elim
+    · rw [hbkno s hs] at hi; cases hi
+    · rw [handleHooks_begun_snap _ hooks _ posW s hs i hi]; exact hset
+    · rw [hfin s hs] at hi; cases hi
+    · cases hi
+
+/-- Non-vacuity, and the class of seed C10-6 end to end: a call triggered at before_START_ACTIVITY-10 awaited at
+    before_START_ACTIVITY+10 and a probe triggered at +10; two runs. The probe is begun once per START, after the
+    number was handed out, and sees run 1 with start time 1, then run 2 with start time 5 and the first run's later
+    stamps gone; the crossing call sees, each time, what was there before its START. -/
+example :
+    let hooks : List Hook := [
+      { id := 0, isTask := false, critical := false, trig := .before .START_ACTIVITY, tw := -10, await := .before .START_ACTIVITY, aw := 10, outcomes := [] },
+      { id := 1, isTask := false, critical := false, trig := .before .START_ACTIVITY, tw := 10, await := .before .START_ACTIVITY, aw := 10, outcomes := [] }]
+    let reqs : List Req := [.try_ .DEPLOY true false, .try_ .CONFIGURE true false, .try_ .START_ACTIVITY true false,
+      .try_ .STOP_ACTIVITY true false, .try_ .START_ACTIVITY true false]
+    let begun := ((runSeq hooks 0 {} reqs).map fun r => (r.1.flatMap Step.begun).map fun i => (i.hook, i.snap.rnVar, i.snap.sosor, i.snap.eoeor))
+    begun = [[], [], [(0, none, .absent, .absent), (1, some 1, .val 1, .empty)], [],
+             [(0, none, .val 1, .val 4), (1, some 2, .val 5, .empty)]] := by decide
